@@ -163,10 +163,11 @@ def base_scenarios():
     mk("slow-renderer-change-while-rendering", [reg(1, "a1", 1000, "NON"), {"at": 100, "do": "change"}, {"at": 103, "do": "change"}, {"at": 120, "do": "change", "n": 2}], rdelay=8)
     mk("shared-message-two-con-observers-one-silent", [reg(1, "a1", 1000), reg(2, "a2", 2000), {"at": 10, "do": "change", "x": "shared-ok"}, ack(2, 1, 20),
                                                        {"at": 30000, "do": "change"}], reactions=[{"r": 2, "nth": 2, "copy": 1, "delay": 5, "ty": "ACK"}, {"r": 1, "nth": 2, "copy": 1, "delay": 5, "ty": "ACK"}])
-    # (which of the two is hit depends on the iteration order of the resource's observer set: the Message
-    # object keeps the labels of the observer served last)
-    mk("shared-message-two-con-observers-other-silent", [reg(1, "a1", 1000), reg(2, "a2", 2000), {"at": 10, "do": "change", "x": "shared-ok"}, ack(1, 1, 20),
-                                                         {"at": 30000, "do": "change"}], reactions=[{"r": 2, "nth": 2, "copy": 1, "delay": 5, "ty": "ACK"}, {"r": 1, "nth": 2, "copy": 1, "delay": 5, "ty": "ACK"}])
+    # the Message object keeps the labels of the observer served last (iteration order of a set of objects:
+    # varies from process to process), so with one silent observer the harm depends on the order; with both
+    # silent the observer served first is always left with an exchange that is never retransmitted nor timed out
+    mk("shared-message-two-silent-con-observers", [reg(1, "a1", 1000), reg(2, "a2", 2000), {"at": 10, "do": "change", "x": "shared-ok"}, {"at": 30000, "do": "change"}],
+       reactions=[{"r": 2, "nth": 2, "copy": 1, "delay": 5, "ty": "ACK"}, {"r": 1, "nth": 2, "copy": 1, "delay": 5, "ty": "ACK"}])
     mk("shared-unsuccessful-con-and-non", [reg(1, "a1", 1000), reg(2, "a2", 2000, "NON"), {"at": 10, "do": "change", "x": "shared-unsucc"}, ack(1, 1, 20), {"at": 30, "do": "change"}])
     return S
 
